@@ -5,7 +5,8 @@
 //   {"doc": "<JSON text of an AuthorizationItem>" | null,
 //    "cases": [{"ip": "168.63.129.16", "port": 80, "u":.., "g":[..], "p": hex, "e": hex, "el": bool,
 //               "url": "<request URI text>"}, ...]}
-//      -> @@ {"res": ["ok" | "audit" | "forbidden" | "err:..."], "kinds": [type_name of the authorizer]}
+//      -> @@ {"res": ["ok" | "audit" | "forbidden" | "other" | "err:..."], "kinds": [type_name of the authorizer]}
+//      the cases of one line are decided in order on clones of ONE rule set (a request sequence)
 //   {"admin": [i32, ...]}
 //      -> @@ {"elevated": [bool, ...]}     runAsElevated of Claims::from_audit_entry(is_admin = x)
 //
@@ -87,19 +88,28 @@ fn handle(rt: &tokio::runtime::Runtime, line: &str) -> Value {
     let doc = v["doc"].as_str();
     let mut res = Vec::new();
     let mut kinds = Vec::new();
+    // ONE rule set per script line, as in the agent: the key keeper stores one ComputedAuthorizationItem
+    // per delivered document and hands a clone to every request, so consecutive cases of a line are a
+    // request SEQUENCE over the same rule set (anything the item shares between its clones is shared here).
+    let mut doc_err: Option<String> = None;
+    let base: Option<ComputedAuthorizationItem> = match doc {
+        Some(d) => match serde_json::from_str::<AuthorizationItem>(d) {
+            Ok(i) => Some(ComputedAuthorizationItem::from_authorization_item(i)),
+            Err(e) => {
+                doc_err = Some(format!("err:doc: {}", e));
+                None
+            }
+        },
+        None => None,
+    };
     if let Some(cases) = v["cases"].as_array() {
         for r in cases {
-            let rules: Option<ComputedAuthorizationItem> = match doc {
-                Some(d) => match serde_json::from_str::<AuthorizationItem>(d) {
-                    Ok(i) => Some(ComputedAuthorizationItem::from_authorization_item(i)),
-                    Err(e) => {
-                        res.push(json!(format!("err:doc: {}", e)));
-                        kinds.push(json!(""));
-                        continue;
-                    }
-                },
-                None => None,
-            };
+            if let Some(e) = &doc_err {
+                res.push(json!(e));
+                kinds.push(json!(""));
+                continue;
+            }
+            let rules: Option<ComputedAuthorizationItem> = base.clone();
             let uri: hyper::Uri = match r["url"].as_str().unwrap_or("").parse() {
                 Ok(u) => u,
                 Err(e) => {
